@@ -267,7 +267,9 @@ TrAttributesBig ==
        THEN /\ Touch("attributes")
             /\ LET R == [i \in 1..Len(e.res) |-> ToSet(e.res[i])]
                IN  /\ Clause("C18.attributes.big.order", \A i \in 1..(Len(R) - 1) : ShortLess(R[i], R[i + 1]))
-                   /\ Clause("C18.attributes.big.set", ToSet(R) = GeneratorsLit(KV, ToSet(e.c)))
+                   (* as in R_Attributes: the concept with the empty extent yields just its intent *)
+                   /\ Clause("C18.attributes.big.set",
+                             ToSet(R) = IF ToSet(e.c) = {} THEN {Intent(KV, {})} ELSE GeneratorsLit(KV, ToSet(e.c)))
                    /\ Clause("C18.attributes.big.minimal", Len(e.res) = 0 \/ e.minimal = e.res[1] \/ ToSet(e.c) = BottomExtent(KV))
        ELSE OutOfDomain
 
